@@ -82,7 +82,8 @@ def main():
     res["confirmed"] = confirmed
     print(json.dumps(res, indent=1))
     if keep and confirmed:
-        dst = os.path.join(VERIF, "seeded", "%s-%s" % (pid, x))
+        as_x = sys.argv[sys.argv.index("--as") + 1] if "--as" in sys.argv else x
+        dst = os.path.join(VERIF, "seeded", "%s-%s" % (pid, as_x))
         os.makedirs(dst, exist_ok=True)
         shutil.copy(patch, os.path.join(dst, "patch.diff"))
         for f in demos:
@@ -90,7 +91,7 @@ def main():
         if os.path.exists(os.path.join(sd, "README.md")):
             shutil.copy(os.path.join(sd, "README.md"), os.path.join(dst, "README.md"))
         meta = {
-            "property": pid, "variant": x, "breaks": "see README.md (written by the independent sub-agent)",
+            "property": pid, "variant": as_x, "breaks": "see README.md (written by the independent sub-agent)",
             "demo": {"files": demos, "copy_to_package_dir": where, "command": "go test -count=1 -run '<Test names in the demo>' ./" + where},
             "what_i_ran": ["git apply patch.diff in a scratch worktree of /repo HEAD", "go build ./... (ok)", "go test -count=1 ./... (pass)",
                            "demo with the change: fails", "demo without the change: passes", "tallycheck -repo <worktree> -prop " + ",".join(props)],
